@@ -10,6 +10,8 @@ import RP.Model.HandsIso
   isomorphism iterator (C05's `isCanonical` model plugged in; `n` above the class count = all)
 * `isopocket <std|short> <street 1..3> <pocket> <n>` → `n=<count> ck=<checksum>` of the first `n`
   canonical boards of that pocket (one pocket's segment of the class list, `C06_classes_by_pocket`)
+* `obsnth <std|short> <street> <j> <k>` → the observation `nth(k)` returns after `j` items were
+  consumed, `<pocket> <board>` or `none` (model: item `j + k` of the list, `C06_observation_at`)
 * `niso <std|short> <street 0..3>`      → the generated `n_isomorphisms` entry (proved equal to the
   Burnside value in `RP.C06.C06_burnside_arith`)
 * `nobs <std|short> <street>` / `nchildren <std|short> <street>` → generated table entries -/
@@ -59,6 +61,14 @@ def handle (line : String) : String :=
     match deckOf d, num? st, num? p, num? n with
     | some short, some st, some p, some n =>
       if st > 3 ∨ p ≥ 2^64 then "bad-op" else fmtSum (pocketClassesSummary short st p n)
+    | _, _, _, _ => "bad-op"
+  | ["obsnth", d, st, j, k] =>
+    match deckOf d, num? st, num? j, num? k with
+    | some short, some st, some j, some k =>
+      if st > 3 then "bad-op" else
+      match observationAt short st (j + k) with
+      | some o => s!"{o.1} {o.2}"
+      | none => "none"
     | _, _, _, _ => "bad-op"
   | ["niso", d, st] =>
     match deckOf d, num? st with
